@@ -5,7 +5,7 @@ HOOKS = {
               'harness (run by every check) compiles /repo\'s current working tree with the hooks on',
     'baseline_off_cmd': 'cd /repo && cargo test --workspace --no-fail-fast --offline',
     'note_add_only': 'all hook code is new and cfg-guarded (src/rapidquilt/verif.rs, fault_point/sched_point calls, two pub re-exports); exactly one existing line was rewritten to host a call: `.and_then(|_| File::create(&real_path))` in save_backup_file became a block with the same expression; one cfg-guarded hook line was later touched by the fix commit 08de233 (error context); 2d315d5 changed four cfg-guarded hook call lines (fault_point("write") -> fault_point_write) and nothing else',
-    'source_commits': ['ca1bb5c', 'd1463e7', 'e911188', '0f7972b', '2d315d5'],
+    'source_commits': ['ca1bb5c', 'd1463e7', 'e911188', '0f7972b', '2d315d5', 'e3af4d5'],
     'add_only': False,
 }
 ENGINES = [
@@ -98,8 +98,8 @@ _push('C15', 'Lean 4 proof (invariant over all file-system operations of the dri
       'Theorem C15_old_inodes_intact: after any push (no injected fault) every pre-existing file object still reachable has the same path, '
       'bytes and mode; all changed files, rejects and backups are fresh inodes; only .pc/applied-patches is appended in place. Real runs: twins '
       'created with hard links keep bytes and mode; set of re-created inodes = model\'s.')
-_push('C16', 'Lean 4 proof (byte-level model of Path::components / strip: stripPath n = drop n components; series-line contract; choose) + differential correspondence (series, path, push engines)',
-      'Theorems C16_strip_components (for all names and n), C16_comment_ignored, C16_default_strip, C16_choose_is_name, C16_choose_old_iff. '
+_push('C16', 'Lean 4 proof (byte-level model of Path::components / strip: stripPath n = drop n components and a leading ./; no two spellings of one path survive stripping; series-line contract; choose) + differential correspondence (series, path, push engines incl. parallel runs)',
+      'Theorems C16_strip_components (for all names and n), C16_no_cur, C16_no_alias (two stripped names with the same path on disk are the same cache key), C16_comment_ignored, C16_default_strip, C16_choose_is_name, C16_choose_old_iff. '
       'read_series_file and std::path are compared with their models on every run; whole pushes (incl. split pushes, files created/deleted '
       'earlier in the run, .orig-style differing names) must equal pushSpec.')
 META['C11'] = {'engine': 'rqharness parse + series + push(evil) + rqmodel', 'design_ref': 'DESIGN.md section 5 C11',
@@ -127,8 +127,8 @@ _push('C13', 'Lean 4 proof (reject text = header + failed hunks parses back to e
       'reasons) must be byte-identical to pushSpec\'s: present exactly for failing file patches of the failing patch whose directory exists.',
       ' Known limitation (documented): two failing file patches for one file overwrite each other\'s reject (dup-entry-rej-overwrite) - mirrored by the specification, see DESIGN.md.')
 
-_push('C05', 'Lean 4 proof (forward simulation: memory cache + LIFO rollback refine the abstract patch-by-patch application; uses C04 and C11 invariants) + differential correspondence against pushSpec',
-      'Theorem C05_apply_refines for all file systems, configurations and ranges; C05_exit_and_names. Real pushes (multi-file patches, creates, '
+_push('C05', 'Lean 4 proof (forward simulation: memory cache + LIFO rollback refine the abstract patch-by-patch application; the save phase writes out exactly the cache: saveAll_flush; uses C04, C11, C16_no_alias) + differential correspondence against pushSpec',
+      'Theorem C05_apply_refines (application loop = abstract patch-by-patch application) and C05_tree_on_disk (whenever the model of the driver finishes without an I/O error, the file found on disk under every non-reject, non-.pc name is exactly the file the abstract specification has under that name after the first k patches, k = the number recorded) for all file systems, configurations and ranges; C05_exit_and_names. Real pushes (multi-file patches, creates, '
       'deletes, renames, mode changes, failure at any position and in any subset of files, all backup modes) must leave exactly pushSpec\'s tree, '
       'rejects, .pc and exit status.')
 
@@ -142,16 +142,16 @@ _push('C18', 'Lean 4 proof (invariant: no driver function turns a failed operati
       'Real runs: the k-th write operation (modified file, reject, backup, applied-patches, directory) is failed by the hook for every k; exit must '
       'be 1, no panic, applied-patches untouched, the message must name the file.', ' Faults are injected at operation granularity.')
 
-_push('C06', 'Lean 4 proof (all-schedules invariant of the apply-phase transition system; disjoint name sets => file patches of different workers commute on the abstract tree) + forced-schedule correspondence via the baton hook',
-      'Theorems C06_apply_phase (every schedule), C06_queues_sorted, C06_disjoint, C06_frame, C06_local, C06_commute. The real parallel driver is run '
+_push('C06', 'Lean 4 proof (all-schedules invariant of the apply-phase transition system; disjoint name sets => file patches of different workers commute on the abstract tree; save phase: ownership invariant over every interleaving of the workers\' file-system operations) + forced-schedule correspondence via the baton hook',
+      'Theorems C06_apply_phase (every schedule), C06_save_phase (every schedule of the workers\' save operations: each worker issues exactly the operations of its solo run and the resulting file system equals, up to inode numbers, the one-worker-after-the-other run of the model\'s save functions), C06_error_index (an error a worker runs into counts exactly when it lies in the patch the push stops at, under every schedule), C06_queues_sorted, C06_disjoint, C06_frame, C06_local, C06_commute. The real parallel driver is run '
       'under forced random schedules (scheduling points around the shared atomic and before every file-system write) and with free-running '
       'threads for 2-16 workers; tree, .pc, rejects and exit status must equal the single-threaded specification.',
-      ' Partial: the save phase (writes of different workers to distinct paths are independent of the interleaving) is covered by the forced-schedule runs only, not by a theorem; memory-model effects below SC atomics and rayon itself are outside the model.')
+      ' C06_save_phase assumes that no path written by one worker is a prefix of a path (or parent directory) written by another (decidable; false only when one patch turns a directory into a file or back, known finding dir-file-swap) and that every worker\'s save succeeds alone; the hand-over from the apply phase to the save phase (roll back what ran ahead) and the main thread\'s clean-up are sequential code covered by the C05 theorems; memory-model effects below SC atomics and rayon itself are outside the model.')
 
 META['C01'] = {'engine': 'rqharness diff (+ parse) + rqmodel', 'design_ref': 'DESIGN.md section 5 C01',
-    'technique': 'Lean 4 proof (declarative ValidDiff => exact application in both directions; bytes/lines round trip; parser reads the plain and git dialects back) + differential correspondence on rendered diffs incl. CLI runs',
+    'technique': 'Lean 4 proof (declarative ValidDiff => exact application in both directions; an LCS diff with GNU-style grouping always produces a ValidDiff; bytes/lines round trip; parser reads the plain and git dialects back) + differential correspondence on rendered diffs incl. CLI runs',
     'text': 'Theorems C01_lines_roundtrip, C01_lines_shape, C01_forward, C01_reverse (all valid unified diffs, any context width, both directions, any '
-            'fuzz limit: result exactly B / A, offset 0, fuzz 0) and C01_parse_plain. Real parse_patch + TextFilePatch::apply (and a sample through '
+            'fuzz limit: result exactly B / A, offset 0, fuzz 0), C01_diff_valid / C01_diff_applies / C01_diff_applies_rev (for ALL A, B and context widths c the diff mkDiff c (editScript A B) is valid and applies exactly, both ways) and C01_parse_plain. Real parse_patch + TextFilePatch::apply (and a sample through '
             'the command line) on rendered diffs of random (A, B) in all dialects must give exactly B / A with exact reports.',
     'note': 'Trusted: Lean kernel; models of parser.rs / patch/mod.rs / lines_with_endings.rs (compared on every run); the harness renderer as a source of valid diffs. '
             'Known finding: c0-top-of-file (single zero-context hunk at the top of a non-empty file is treated as whole-file create/delete).'}
